@@ -111,7 +111,13 @@ def _worker(task):
         _model = ModelProc()
     prog, flavours, opts = task
     try:
+        no_panic = opts.pop("_no_panic", False) if isinstance(opts, dict) else False
         r = run_program(prog, flavours=flavours, model=_model, stop_on_first=True, **opts)
+        if no_panic:
+            for i, st in enumerate(r["steps"]):
+                if st[2] is not None and st[2][0] in ("panic", "hang", "dead") and st[3] is None:
+                    r["steps"][i] = (st[0], st[1], st[2], "the call " + st[2][0] + "s (the model predicts the same: the code as written does)", st[4])
+                    r["ok"] = False
     except Exception as e:
         try:
             _model.close()
@@ -120,6 +126,8 @@ def _worker(task):
         _model = None
         return {"ok": False, "crash": traceback.format_exc()[-1500:], "prog": prog, "flavours": flavours}
     out = {"ok": r["ok"], "n": len(r["steps"]), "flavours": flavours}
+    if opts.get("_no_panic"):
+        pass
     classes = {}
     for op, cm, ci, reason, obs in r["steps"]:
         if ci is not None:
@@ -231,6 +239,8 @@ def main():
                     prog, fls, opts = item
                 else:
                     prog, fls, opts = item, [fl], {}
+                if spec.get("no_panic"):
+                    opts = dict(opts, _no_panic=True)
                 tasks.append((sname, (prog, fls, opts)))
     # corpus first
     for f in sorted(glob.glob(f"{VERIF}/corpus/{pid}-*.json")):
